@@ -913,11 +913,31 @@ fn gen_c14(seed: u64, r: &mut Rng) -> Scenario {
 pub const C15_LENS: usize = 41;
 pub const C15_NT: [Option<usize>; 12] = [None, Some(0), Some(1), Some(2), Some(3), Some(4), Some(5), Some(6), Some(9), Some(17), Some(64), Some(8)];
 pub const C15_PIPES: usize = 7;
+pub const C15_CHUNKS: usize = 37;
+pub const C15_CELLS: usize = C15_LENS * 12 * C15_PIPES * 2 * C15_CHUNKS;
 
 pub fn c15_chunks(len: usize) -> Vec<Option<Chunk>> {
     let mut v = vec![None, Some(Chunk::Auto), Some(Chunk::Raw(0))];
-    let mut cs = vec![1usize, 2, 3, 4, 5, 7, 8, 16, len.saturating_sub(1).max(1), len.max(1), len + 1, 1000];
-    cs.dedup();
+    // dense small sizes, sizes around the input length, and sampled large ones up to the largest representable
+    let cs = vec![
+        1usize,
+        2,
+        3,
+        4,
+        5,
+        7,
+        8,
+        16,
+        len.saturating_sub(1).max(1),
+        len.max(1),
+        len + 1,
+        1000,
+        1 << 20,
+        (1 << 32) + 1,
+        1 << 62,
+        1 << 63,
+        usize::MAX,
+    ];
     for c in cs {
         v.push(Some(Chunk::Exact(c)));
         v.push(Some(Chunk::Min(c)));
@@ -927,7 +947,9 @@ pub fn c15_chunks(len: usize) -> Vec<Option<Chunk>> {
 
 fn gen_c15(seed: u64, r: &mut Rng, huge: bool) -> Scenario {
     let large = huge || seed % 1009 == 0;
-    let mut idx = (seed / 1) as usize;
+    // consecutive seeds are scattered over the grid by a multiplier coprime with its size: any stretch of seeds
+    // samples all dimensions evenly, and C15_CELLS consecutive seeds visit every cell exactly once
+    let mut idx = ((seed as u128 * 1_000_003u128) % C15_CELLS as u128) as usize;
     let len = idx % C15_LENS;
     idx /= C15_LENS;
     let nt = C15_NT[idx % C15_NT.len()];
@@ -937,6 +959,7 @@ fn gen_c15(seed: u64, r: &mut Rng, huge: bool) -> Scenario {
     let known = idx % 2 == 0;
     idx /= 2;
     let chunks = c15_chunks(len);
+    debug_assert_eq!(chunks.len(), C15_CHUNKS);
     let cs = chunks[idx % chunks.len()];
     let (policy, noise, release) = gen_policy(r);
     let mut scn = Scenario {
@@ -956,6 +979,14 @@ fn gen_c15(seed: u64, r: &mut Rng, huge: bool) -> Scenario {
         quiet: 0,
         pre: 0,
     };
+    // a by-value iterator source buffers a whole chunk: a chunk size of 2^20 elements is a 58 MB buffer per worker
+    // (0.5 s per run), one of 2^32 elements a 240 GB allocation (the process aborts, as `Vec::with_capacity` would); the astronomically large sizes are therefore only
+    // sampled on the indexable sources, where a pull allocates nothing
+    if let Some(Chunk::Exact(c)) | Some(Chunk::Min(c)) = cs {
+        if c > 4096 && !matches!(scn.src, Src::Vec | Src::SliceCloned | Src::Range) {
+            scn.src = *r.pick(&[Src::Vec, Src::SliceCloned, Src::Range]);
+        }
+    }
     match pipe {
         0 => {
             scn.ops = vec![gen_op(r, 0)];
